@@ -54,6 +54,11 @@ def main():
     from ethosu.vela.debug_database import DebugDatabase
     from ethosu.vela.range_set import MemoryAccessSet
 
+    for st in plan["steps"]:
+        if not callable(getattr(vela, st["entry"], None)):
+            # cannot bind to the code (e.g. the file is being rewritten): the harness reports a machinery error
+            sys.stderr.write("entry point ethosu.vela.vela.%s is missing\n" % st["entry"])
+            return 3
     obs = {"step": 0}
     wc_born = {}        # id(cache key object) is not stable -> use the key itself (hashable namedtuple)
     eq_born = {}
